@@ -25,12 +25,26 @@
 (*                        the repair C10-F27)                              *)
 (*   "MetaBeforeBody"     storeNewMessage writes .meta before it copies    *)
 (*                        the body into the spool                          *)
+(*   "FailAfterMeta"      storeNewMessage can still refuse the message     *)
+(*                        after the meta-data file was renamed into place  *)
+(*                        (and removes nothing: Abort of a refused message *)
+(*                        has nothing to remove)                           *)
+(*   "EmptyIsDangling"    the start-up scan takes a zero-length body file  *)
+(*                        for the leftover of an interrupted store         *)
+(*                                                                         *)
+(* Input dimensions besides recipients and target results: cfg.body =      *)
+(* "data" | "empty" (a header-only message: io.Copy issues no write and    *)
+(* the body file is complete, and empty, as soon as it exists) and the     *)
+(* refusal of a message: storeNewMessage may fail at every file operation  *)
+(* of the store chain and on the source buffer (StoreFail: I/O error,      *)
+(* unreadable source), cleans up, Body returns the error and the source    *)
+(* aborts; the source may also abort before it ever called Body.           *)
 (***************************************************************************)
 EXTENDS QueueDiskObs, TLC, SequencesExt, Json
 
 CONSTANTS Rcpts, MaxTries, MaxList, MaxCrashes, Strengths, Devs, Gen
 
-VARIABLES cfg,      \* [partial, list]
+VARIABLES cfg,      \* [partial, list, body]
           disk,     \* [hdr, body, meta, metaNew]
           up, pc, chain, ci, wdone, after, wcontent,
           mem,      \* metadata of the next attempt is held in memory (first attempt only)
@@ -74,7 +88,8 @@ RemoveChain == IF "MetaRemovedFirst" \in Devs
                THEN <<"remove:meta", "remove:hdr", "remove:body">>
                ELSE <<"remove:hdr", "remove:body", "remove:meta">>
 IsWrite(o) == o \in {"write:hdr", "write:body", "write:metanew"}
-Optional(o) == o = "write:body"      \* io.Copy of an empty body issues no write at all
+Bodies == {"data", "empty"}
+Optional(o) == o = "write:body" /\ cfg.body = "empty"   \* io.Copy of an empty body issues no write at all
 
 EmptyDisk == [hdr |-> "absent", body |-> "absent", meta |-> NoFile, metaNew |-> NoFile]
 
@@ -89,7 +104,7 @@ InitWith(c) ==
   /\ obs = DObsRcpts(DObsInit(Rcpts), ToSet(c.list))
   /\ hist = <<>>
 
-Init == \E c \in [partial : BOOLEAN, list : Lists] : InitWith(c)
+Init == \E c \in [partial : BOOLEAN, list : Lists, body : Bodies] : InitWith(c)
 
 (* ---- file-system effects ------------------------------------------------ *)
 Apply(d, o, content) ==
@@ -122,11 +137,14 @@ StartChain(ch, aft, content) ==
   /\ pc' = "chain" /\ chain' = ch /\ ci' = 1 /\ wdone' = FALSE /\ after' = aft /\ wcontent' = content
 
 \* one mutating file operation o of the running chain; writes are optional and repeatable
+\* position of o in the running chain: the current op, or the one after a write that may be over
+Pos(o) == IF ci <= Len(chain) /\ chain[ci] = o THEN ci
+          ELSE IF ci < Len(chain) /\ IsWrite(chain[ci]) /\ (Optional(chain[ci]) \/ wdone) /\ chain[ci + 1] = o THEN ci + 1
+          ELSE 0
+
 Fs(o) ==
   /\ up /\ pc = "chain"
-  /\ LET j == IF ci <= Len(chain) /\ chain[ci] = o THEN ci
-              ELSE IF ci < Len(chain) /\ IsWrite(chain[ci]) /\ (Optional(chain[ci]) \/ wdone) /\ chain[ci + 1] = o THEN ci + 1
-              ELSE 0
+  /\ LET j == Pos(o)
          nj == IF IsWrite(o) THEN j ELSE j + 1
      IN /\ j # 0
         /\ disk' = Apply(Complete(disk, chain, j), o, wcontent)
@@ -137,6 +155,52 @@ Fs(o) ==
         /\ UNCHANGED <<cfg, up, chain, after, wcontent, mem, to, tries, idx, accepted, errs,
                        failed, newTo, crashes, obs>>
 
+
+(* ---- storeNewMessage fails -------------------------------------------------- *)
+\* o = the call that returns an error: a mutating file operation of the store chain (not performed;
+\* a failed write may leave a prefix, the file is incomplete anyway), opening the source buffer
+\* (just before the body file is created) or reading from it (inside the copy).  The design: every
+\* fallible step precedes the rename that makes the message visible, so a refused message has no
+\* meta-data file.
+SrcPos(o) == CASE o = "open:src" -> "create:body" [] o = "read:src" -> "write:body" [] OTHER -> o
+FailOps == {"create:hdr", "write:hdr", "open:src", "create:body", "read:src", "write:body", "sync:hdr",
+            "sync:body", "create:metanew", "write:metanew", "sync:metanew", "rename:meta"}
+
+StoreFail(o) ==
+  /\ up /\ pc = "chain" /\ after = "stored_ret"
+  /\ Pos(SrcPos(o)) # 0
+  /\ (o = "write:body" => cfg.body = "data")     \* no write is issued for an empty body
+  /\ pc' = "refusing"
+  /\ hist' = H([a |-> "StoreFail", res |-> o])
+  /\ UNCHANGED <<cfg, disk, up, chain, ci, wdone, after, wcontent, mem, to, tries, idx, accepted, errs,
+                 failed, newTo, crashes, obs>>
+
+\* deviation: a step that can fail comes after the rename; nothing is cleaned up
+StoreFailLate ==
+  /\ "FailAfterMeta" \in Devs
+  /\ up /\ pc = "stored_ret"
+  /\ pc' = "refused"
+  /\ hist' = H([a |-> "StoreFail", res |-> "late"])
+  /\ UNCHANGED <<cfg, disk, up, chain, ci, wdone, after, wcontent, mem, to, tries, idx, accepted, errs,
+                 failed, newTo, crashes, obs>>
+
+\* tryRemoveDanglingFile on the error paths: header and body, whichever exist (which of them the
+\* code removes depends on the failing step; leaving one behind is harmless without a meta-data file)
+CleanupFs(o) ==
+  /\ up /\ pc = "refusing"
+  /\ \/ o = "remove:hdr" /\ disk.hdr # "absent"
+     \/ o = "remove:body" /\ disk.body # "absent"
+  /\ disk' = Apply(disk, o, NoContent)
+  /\ hist' = hist
+  /\ UNCHANGED <<cfg, up, pc, chain, ci, wdone, after, wcontent, mem, to, tries, idx, accepted, errs,
+                 failed, newTo, crashes, obs>>
+
+QBodyErr ==   \* Body() returns the error
+  /\ up /\ pc = "refusing"
+  /\ pc' = "refused"
+  /\ chain' = <<>> /\ ci' = 0 /\ wdone' = FALSE /\ after' = "" /\ wcontent' = NoContent
+  /\ hist' = hist
+  /\ UNCHANGED <<cfg, disk, up, mem, to, tries, idx, accepted, errs, failed, newTo, crashes, obs>>
 
 (* ---- upstream API --------------------------------------------------------- *)
 QBody ==   \* Body() is called: storeNewMessage starts
@@ -165,6 +229,15 @@ QAbort ==
   /\ StartChain(RemoveChain, "abort_ret", NoContent)
   /\ hist' = H([a |-> "QAbort"])
   /\ UNCHANGED <<cfg, disk, up, mem, to, tries, idx, accepted, errs, failed, newTo, crashes, obs>>
+
+\* Abort of a transaction whose Body was refused, or that never got as far as Body (another
+\* target refused a recipient, the client reset the session): the queue has nothing to remove
+QAbortNoBody ==
+  /\ up /\ pc \in {"refused", "new"}
+  /\ pc' = "abort_ret"
+  /\ hist' = H([a |-> "QAbort", res |-> IF pc = "new" THEN "early" ELSE "refused"])
+  /\ UNCHANGED <<cfg, disk, up, chain, ci, wdone, after, wcontent, mem, to, tries, idx, accepted, errs,
+                 failed, newTo, crashes, obs>>
 
 QAbortRet ==
   /\ up /\ pc = "abort_ret"
@@ -327,7 +400,9 @@ Restart ==
           THEN StartChain(<<"remove:meta", "remove:body">>, "idle", NoContent)
           ELSE IF disk.body = "absent"
                THEN StartChain(<<"remove:meta", "remove:hdr">>, "idle", NoContent)
-               ELSE pc' = "sched" /\ UNCHANGED <<chain, ci, wdone, after, wcontent>>
+               ELSE IF "EmptyIsDangling" \in Devs /\ cfg.body = "empty"
+                    THEN StartChain(<<"remove:body", "remove:meta", "remove:hdr">>, "idle", NoContent)
+                    ELSE pc' = "sched" /\ UNCHANGED <<chain, ci, wdone, after, wcontent>>
   /\ hist' = hist
   /\ UNCHANGED <<cfg, disk, mem, to, tries, idx, accepted, errs, failed, newTo, crashes, obs>>
 
@@ -348,7 +423,9 @@ AllOps == {"create:hdr", "write:hdr", "create:body", "write:body", "create:metan
 
 Next ==
   \/ QBody \/ QBodyRet \/ QCommit \/ QAbort \/ QAbortRet
-  \/ \E o \in AllOps : Fs(o)
+  \/ \E o \in FailOps : StoreFail(o)
+  \/ StoreFailLate \/ QBodyErr \/ QAbortNoBody
+  \/ \E o \in AllOps : Fs(o) \/ CleanupFs(o)
   \/ DanglingFs
   \/ \E res \in Res : TStart(res) \/ TAddRcpt(res) \/ TBody(res) \/ TCommit(res)
   \/ \E st \in [ToSet(accepted) -> Res] : TBodyNA(st)
@@ -360,4 +437,6 @@ Next ==
 Spec == Init /\ [][Next]_vars
 
 NoViolation == obs.viol = {}
+\* scenario generation: the crash-free histories do not depend on the body kind (the driver assigns it)
+GenData == cfg.body = "data"
 =============================================================================
